@@ -116,7 +116,12 @@ class ConcatWorld:
         """name -> {'uid', 'values', 'flags'} and property groups of a hole through the API."""
         out = {"data": {}, "pgs": {}}
         for name in hole.get_data_list():
-            found = hole.get_data(name)
+            try:
+                found = hole.get_data(name)
+            except Exception as err:  # pylint: disable=broad-except
+                # the data set is listed by its hole and cannot be fetched (its record names something the file no longer holds)
+                raise Violation(self.v("C04", after_removal=bool(self.removed)), "data_unreadable",
+                                f"get_data({name!r}) on a stored hole raised {type(err).__name__}: {str(err)[:100]}", {"exc": type(err).__name__}) from None
             if not found:
                 out["data"][name] = {"uid": None, "values": "<missing>"}
                 continue
@@ -498,7 +503,7 @@ class ConcatScenario(BaseScenario):
         groups = sorted(w.groups)
         g = r.choice(groups)
         dh = "B" if ("B" in w.ws and r.random() < 0.7) else w.groups[g]["h"]
-        return {"g": g, "gfb": groups.index(g), "dh": dh}
+        return {"g": g, "gfb": groups.index(g), "dh": dh, "blind": r.random() < 0.35}
 
     def gen_table(self, w, r):
         t = w.pick_hole(r, lambda h: bool(h["pgs"]))
@@ -1115,6 +1120,31 @@ class ConcatScenario(BaseScenario):
         if nguid in w.groups:
             raise Violation("C06", "uid_reused", f"copied group reuses identifier {nguid}", {"what": "group copy"})
         model_new = {"h": dh, "name": w.groups[g]["name"], "holes": {}}
+        if op.get("blind") and cross and self.prop != "C12" and sorted(ustr(u) for u in (new.concatenated_object_ids or [])) == sorted(w.groups[g]["holes"]):
+            # the caller does not look at the copy (observer effect: reading the copied data would keep their types alive): the copy
+            # is taken to equal its source (same identifiers -- the fast path keeps them), references are dropped, a collection runs,
+            # and an UNRELATED entity is created and removed in the target workspace; later reads and the closed file decide
+            import copy as _copy
+
+            from geoh5py.objects import Points
+
+            model_new["holes"] = _copy.deepcopy(w.groups[g]["holes"])
+            del new
+            for key in [k for k in w.slots if k[0] in (g, nguid)]:
+                del w.slots[key]
+            w.sim.collect("blind_copy")
+            bystander = Points.create(target, vertices=np.zeros((2, 3)), name="bystander")
+            target.remove_entity(bystander)
+            del bystander
+            w.groups[nguid] = model_new
+            for (gg, label), dk in list(w.label_dk.items()):
+                if gg == g:
+                    w.label_dk.setdefault((nguid, label), dk)
+            w.copy_pairs.add(frozenset((g, nguid)))
+            w.created_groups = {nguid}
+            w.touched = {nguid}
+            w.sim.probe("copy_group_cross_unread")
+            return "ok"
         live_holes = [c for c in new.children if snapshot.kind_of(c) == "object"]
         src_by_name = {}
         for hu, hm in w.groups[g]["holes"].items():
@@ -1268,6 +1298,19 @@ class ConcatScenario(BaseScenario):
         if self.prop == "C05":
             self._stale_removed(w, raw, h)      # (a removal check asks this first: rows of a removed hole are its finding, not the store's)
         w.raw_rules(raw, h, "close:closed file", closed=True)
+        # R16: the type every stored data record names exists under Types (a type node may only go with its last user)
+        for name, node in raw["flat"]["Groups"].items():
+            if node.get("concat") and isinstance(node["concat"]["attributes"], list):
+                for rec in node["concat"]["attributes"]:
+                    if not isinstance(rec, dict):
+                        continue
+                    # (data types only: a hole whose object type node is missing is still read -- the class supplies its type; a data
+                    #  record whose type node is missing cannot be read at all)
+                    for key, tkind in (("Type ID", "Data types"),):
+                        if key in rec and rec[key] not in raw["types"].get(tkind, {}):
+                            raise Violation(w.v("C04", after_removal=bool(w.removed)), "concat_R16",
+                                            f"close:closed file: Groups/{name}: record {rec.get('ID')} ({rec.get('Name')!r}) names type {rec[key]}, which is not under Types/{tkind}",
+                                            {"rule": "R16", "where": "close", "closed": True})
         errs = rawgeoh5.validate(raw, concat=False)
         errs = [e for e in errs if e[0] != "R8"] if self.prop != "C02" else errs
         if errs:
